@@ -15,7 +15,7 @@ Local Open Scope N_scope.
     pairs and CR LF pairs fall relative to the refill points. *)
 Theorem T04_chars : forall step maxSeq c chunks cs st fuel,
   xcontract step (X c) maxSeq -> sizes_ok c maxSeq -> Forall (fun ch => ch <> []) chunks ->
-  Dec step (concat chunks) cs st -> (st = Clean \/ st = Truncated) -> (length cs < fuel)%nat ->
+  Dec step (concat chunks) cs st -> st = Clean -> (length cs < fuel)%nat ->
   deliver c fuel (mk_reader chunks) = (eol_norm (nel c) cs, EndEOF).
 Proof.
   intros step maxSeq c chunks cs st fuel HC HS Hne D Hnb Hf.
@@ -27,7 +27,7 @@ Print Assumptions T04_chars.
 Theorem T04_chunking : forall step maxSeq c chunks1 chunks2 cs st fuel,
   xcontract step (X c) maxSeq -> sizes_ok c maxSeq ->
   Forall (fun ch => ch <> []) chunks1 -> Forall (fun ch => ch <> []) chunks2 -> concat chunks1 = concat chunks2 ->
-  Dec step (concat chunks1) cs st -> (st = Clean \/ st = Truncated) -> (length cs < fuel)%nat ->
+  Dec step (concat chunks1) cs st -> st = Clean -> (length cs < fuel)%nat ->
   deliver c fuel (mk_reader chunks1) = deliver c fuel (mk_reader chunks2).
 Proof.
   intros step maxSeq c k1 k2 cs st fuel HC HS H1 H2 E D Hnb Hf.
@@ -48,12 +48,26 @@ Proof.
 Qed.
 Print Assumptions T04_chars_error.
 
+(** input that ends inside a character (odd byte of UTF-16, 1-3 bytes of UCS-4, the head of a multi-byte UTF-8 sequence): after the
+    repair of finding F2 (XMLReader::xcodeMoreChars throws Trans_BadSrcSeq when the transcoder needs more bytes and the source
+    has none) EVERY chunking ends the delivery with that error, after a prefix of the specified characters (all of them, except
+    that a final CR is consumed by handleEOL's look-ahead, which hits the error first) *)
+Theorem T04_chars_truncated : forall step maxSeq c chunks cs fuel,
+  xcontract step (X c) maxSeq -> sizes_ok c maxSeq -> Forall (fun ch => ch <> []) chunks ->
+  Dec step (concat chunks) cs Truncated -> (length cs < fuel)%nat ->
+  exists p q, deliver c fuel (mk_reader chunks) = (p, EndErr (XErr E_Trans_BadSrcSeq)) /\ eol_norm (nel c) cs = p ++ q.
+Proof.
+  intros step maxSeq c chunks cs fuel HC HS Hne D Hf.
+  exact (deliver_trunc step maxSeq c HC HS fuel _ cs (St_init step c chunks cs Truncated Hne D) Hf).
+Qed.
+Print Assumptions T04_chars_truncated.
+
 (** one refill keeps the remaining character sequence: the key invariant (also the C01 index invariant [good]) *)
 Theorem T04_refresh_keeps_remaining : forall step maxSeq c r cs st,
   xcontract step (X c) maxSeq -> sizes_ok c maxSeq -> St step c r cs st ->
   match refresh_char c r with
   | Err Fault | Err FuelOut => False
-  | Err (XErr e) => st = Bad e
+  | Err (XErr e) => errOK st e
   | Ok (r', b) => St step c r' cs st /\ (b = false -> cs = []) /\ (exists new, ccur r' = ccur r ++ new)
   end.
 Proof.
@@ -68,7 +82,7 @@ Print Assumptions T04_refresh_keeps_remaining.
     in every reachable state the answer of a token operation is a function of the remaining character sequence [cs]
     alone -- not of the buffer contents, refill points or chunking -- and the state afterwards holds the specified rest *)
 Theorem T04_tokens_partial : forall step maxSeq c r cs st,
-  xcontract step (X c) maxSeq -> sizes_ok c maxSeq -> St step c r cs st -> (st = Clean \/ st = Truncated) ->
+  xcontract step (X c) maxSeq -> sizes_ok c maxSeq -> St step c r cs st -> st = Clean ->
   (forall ch, match skipped_char c r ch with
               | Ok (r', b) => St step c r' (snd (spec_skipped_char ch cs)) st /\ b = fst (spec_skipped_char ch cs)
               | Err _ => False end) /\
@@ -95,7 +109,7 @@ Theorem T04_ops_keep_state : forall step maxSeq c fuel r cs st o,
   (2 * length cs + 2 <= fuel)%nat ->
   match do_op c fuel r o with
   | Err Fault | Err FuelOut => False
-  | Err (XErr e) => st = Bad e
+  | Err (XErr e) => errOK st e
   | Ok (r', _) => exists cs', St step c r' cs' st /\ (length cs' <= length cs)%nat
   end.
 Proof.
@@ -110,7 +124,7 @@ Print Assumptions T04_ops_keep_state.
     characters; only a parent that is really exhausted is skipped.  So references behave the same wherever their ';'
     falls relative to the refill points of the containing entity. *)
 Theorem T04_pop_keeps_remaining : forall step maxSeq c p rest cs st,
-  xcontract step (X c) maxSeq -> sizes_ok c maxSeq -> St step c p cs st -> (st = Clean \/ st = Truncated) -> cs <> [] ->
+  xcontract step (X c) maxSeq -> sizes_ok c maxSeq -> St step c p cs st -> st = Clean -> cs <> [] ->
   exists p', pop_reader c (p :: rest) = Ok (Some (p', rest)) /\ St step c p' cs st /\ ccur p' <> [].
 Proof.
   intros step maxSeq c p rest cs st HC HS H Hnb Hne. exact (pop_loop_keeps step maxSeq c HC HS p rest cs st H Hnb Hne).
@@ -118,7 +132,7 @@ Qed.
 Print Assumptions T04_pop_keeps_remaining.
 
 Theorem T04_pop_skips_exhausted : forall step maxSeq c p q rest st,
-  xcontract step (X c) maxSeq -> sizes_ok c maxSeq -> St step c p [] st -> (st = Clean \/ st = Truncated) ->
+  xcontract step (X c) maxSeq -> sizes_ok c maxSeq -> St step c p [] st -> st = Clean ->
   pop_reader c (p :: q :: rest) = pop_reader c (q :: rest) /\ pop_reader c [p] = Ok None.
 Proof.
   intros step maxSeq c p q rest st HC HS H Hnb. split.
@@ -193,7 +207,7 @@ Qed.
 Print Assumptions T04_real_sizes_ok.
 
 Theorem T04_chars_utf16_real : forall sw v11 lw fill safe chunks cs st fuel,
-  Forall (fun ch => ch <> []) chunks -> Dec (step_utf16 sw) (concat chunks) cs st -> (st = Clean \/ st = Truncated) ->
+  Forall (fun ch => ch <> []) chunks -> Dec (step_utf16 sw) (concat chunks) cs st -> st = Clean ->
   (length cs < fuel)%nat ->
   deliver (real_cfg (if sw then 2 else 1) v11 lw fill safe) fuel (mk_reader chunks) = (eol_norm v11 cs, EndEOF).
 Proof.
@@ -206,7 +220,7 @@ Qed.
 Print Assumptions T04_chars_utf16_real.
 
 Theorem T04_chars_utf8_real : forall v11 lw fill safe chunks cs st fuel,
-  Forall (fun ch => ch <> []) chunks -> Dec step_utf8 (concat chunks) cs st -> (st = Clean \/ st = Truncated) ->
+  Forall (fun ch => ch <> []) chunks -> Dec step_utf8 (concat chunks) cs st -> st = Clean ->
   (length cs < fuel)%nat ->
   deliver (real_cfg 0 v11 lw fill safe) fuel (mk_reader chunks) = (eol_norm v11 cs, EndEOF).
 Proof.
@@ -235,12 +249,12 @@ Theorem T04_error_prefix_depends_on_alignment_refuted :
     = ([b_A; b_A; b_A; b_A], EndErr (XErr E_UTF8_FormatError)).
 Proof. vm_compute. reflexivity. Qed.
 
-(** F2 (property C02): a truncated multi-byte sequence at the end of the input is dropped silently --
-    consistently for every chunking (T04_chars covers [Truncated]), so it is not a C04 violation *)
-Theorem T04_truncated_tail_is_dropped :
-  deliver (mk_cfg 1 false 4 8 2 false false) 16 (mk_reader [[0x3C; 0; 0x61]]) = ([0x3C], EndEOF) /\
+(** F2 (property C02, fixed in /repo by 752899c): a truncated sequence at the end of the input is reported, for every chunking *)
+Theorem T04_truncated_tail_is_reported :
+  deliver (mk_cfg 1 false 4 8 2 false false) 16 (mk_reader [[0x3C; 0; 0x61]]) = ([0x3C], EndErr (XErr E_Trans_BadSrcSeq)) /\
+  deliver (mk_cfg 1 false 4 8 2 true false) 16 (mk_reader [[0x3C]; [0]; [0x61]]) = ([0x3C], EndErr (XErr E_Trans_BadSrcSeq)) /\
   dec_fn (step_utf16 false) 3 [0x3C; 0; 0x61] = ([0x3C], Truncated).
-Proof. split; vm_compute; reflexivity. Qed.
+Proof. repeat split; vm_compute; reflexivity. Qed.
 
 (** F1: getName as written reads fCharBuf[fCharIndex+1] beyond fCharsAvail after the refresh at a trailing high
     surrogate ([Fault]); with the repair it reports "no name" *)
